@@ -11,6 +11,8 @@ import Driver.Ser
 import Driver.Http
 import Driver.Life
 import Driver.Pool
+import Driver.Ring
+import Driver.RingLog
 /-! `driver <model>`: one op per stdin line, one canonical result line per op on stdout. -/
 
 structure Model where
@@ -26,6 +28,8 @@ def dispatch (model : String) : Option Model :=
   | "path" => some (pureModel Driver.Path.step)
   | "iov" => some ⟨Driver.Iov.St, {}, Driver.Iov.step⟩
   | "objcache" => some ⟨Driver.ObjCache.D, {}, Driver.ObjCache.step⟩
+  | "ringlog" => some ⟨Driver.RingLog.D, {}, Driver.RingLog.step⟩
+  | "ring" => some ⟨Photon.Ring.Ring, { cap := 2 }, Driver.Ring.step⟩
   | "pool" => some ⟨Driver.Pool.D, {}, Driver.Pool.step⟩
   | "life" => some ⟨Driver.Life.D, {}, Driver.Life.step⟩
   | "http" => some ⟨Unit, (), Driver.Http.step⟩
